@@ -754,6 +754,10 @@ class CodeGen:
                 # It should be fine not to update self.stack yet though.
                 yield asm.Metadata('Array allocation (ArrayLiteral)')
                 yield asm.Add(self.ap, asm.State(self.ap), asm.IntLiteral(static_size))
+                # The array already occupies the stack while its elements
+                # are evaluated, so temporaries pushed for them must be
+                # counted on top of it by the overflow checks.
+                self.stack = self.stack.add(static_array_size=static_size)
                 if el_type == DataType.BOOL:
                     foundation = self.pack_bools([
                         isinstance(el_expr, ast.BoolValue) and el_expr.data
@@ -801,6 +805,7 @@ class CodeGen:
                         offset += stride
                     assert offset == 0
 
+                self.stack = self.stack.add(static_array_size=-static_size)
                 access_mode = AccessMode.R if expr.type.const else AccessMode.RW
                 return self.create_new_stack_array(
                     ConcreteArrayType(expr.type.el_type, access_mode),
